@@ -61,11 +61,10 @@ def tryParam (s : String) : Option String :=
     some (String.ofList ((l.dropWhile isBrace).reverse.dropWhile isBrace).reverse)
   else none
 
-/-- `validateURL`: `true` = error -/
+/-- `validateURL`: `true` = error (an empty part; `*` anywhere but in the last position) -/
 def invalidURL (u : String) : Bool :=
   let ps := splitURL u
-  let last := ps.getLast?
-  ps.any fun p => p.val = "" || (p.val = "*" && some p != last)
+  ps.any (fun p => p.val = "") || (ps.dropLast.any fun p => p.val = "*")
 
 def assumedName (i : Nat) : String := "_param_" ++ toString i
 
@@ -80,8 +79,8 @@ def groupConsts (nodes : List Node) : List (String × List Node) :=
 mutual
 /-- the body of `convergeNodesPaths` after the `len(nodes) <= 1` early returns -/
 partial def mergeNodes (nodes : List Node) (idx : Nat) (cands : List Node := nodes) : Node :=
-  let sample := nodes.any (·.hasVal)   -- value of the first merged node that has one
-  let amb := false
+  let sample := match nodes with | n :: _ => n.hasVal | [] => false
+  let amb := cands.any (fun c => c.amb || c.hasVal != sample)
   let params := nodes.filterMap (·.param)
   let wild := match nodes.getLast? with | some n => n.wild | none => none
   let cc := (groupConsts nodes).map fun g => (g.1, convergeNodes g.2 idx)
@@ -161,31 +160,37 @@ def Tree.insert (t : Tree) (declared : Bool) (u : String) : Tree × Bool × Bool
 
 def delim (p : Part) : String := if p.host then "." else "/"
 
-/-- `lookupNode` + `Lookup`: (Match, NormalizedURL). -/
-def lookupLoop : Node → List Part → Bool → String → Bool × String
+/-- `lookupNode` + `Lookup`: (Match, NormalizedURL).  `fw` = path of the last wildcard child passed on the way
+    (a match through it reports the wildcard's own pattern). -/
+def lookupLoop : Node → List Part → Option String → String → Bool × String
   | n, [], fw, path =>
-    if n.amb && !n.wild.isSome && !fw then (n.hasVal, "\u0001" ++ trimURL path)   -- marker: ambiguous value consulted
+    if n.amb && !n.wild.isSome && !fw.isSome then (n.hasVal, "\u0001" ++ trimURL path)   -- marker: ambiguous value consulted
     else if n.hasVal then (true, trimURL path)
-    else if n.wild.isSome then (true, trimURL path)
-    else if fw then (true, trimURL path)
-    else (false, trimURL path)
+    else match n.wild with
+      | some w => (true, trimURL (path ++ (if w.isHost then "." else "/") ++ "*"))
+      | none => match fw with
+        | some wp => (true, trimURL wp)
+        | none => (false, trimURL path)
   | n, p :: rest, fw, path =>
-    let fw := fw || n.wild.isSome
+    let fw := match n.wild with
+      | some w => if w.isHost = p.host then some (path ++ delim p ++ "*") else fw
+      | none => fw
     match (match n.consts.lookup p.val with
            | some ch => if ch.isHost = p.host then some ch else none
            | none => none) with
     | some ch => lookupLoop ch rest fw (path ++ delim p ++ p.val)
     | none =>
       match (match n.param with
-             | some (nm, ch) => if ch.isHost = p.host then some (nm, ch) else none
+             | some (nm, ch) => if ch.isHost = p.host && p.val ≠ "" then some (nm, ch) else none
              | none => none) with
       | some (nm, ch) => lookupLoop ch rest fw (path ++ delim p ++ "{" ++ nm ++ "}")
       | none =>
         if (tryParam p.val).isSome then (false, trimURL path)
-        else if fw then (true, trimURL (path ++ delim p ++ "*"))
-        else (false, trimURL path)
+        else match fw with
+          | some wp => (true, trimURL wp)
+          | none => (false, trimURL path)
 
-def Tree.lookupRaw (t : Tree) (u : String) : Bool × String := lookupLoop t.root (splitURL u) false ""
+def Tree.lookupRaw (t : Tree) (u : String) : Bool × String := lookupLoop t.root (splitURL u) none ""
 
 def Tree.lookup (t : Tree) (u : String) : Bool × String :=
   let (m, s) := t.lookupRaw u
@@ -198,23 +203,14 @@ def Tree.normalizeURL (t : Tree) (u : String) : String × Tree :=
   let consulted := (t'.lookupRaw u).2.startsWith "\u0001"
   (if m then nu else u, { t' with nondet := t'.nondet || consulted })
 
-/-- `common.NormalizeTree`: (tree, convergenceOccurred); a refused URL is skipped (logged), never an error. -/
+/-- `common.NormalizeTree`: (tree, convergenceOccurred); a URL the tree refuses is logged and skipped
+    (the convergence it may have caused before failing still counts). -/
 def Tree.normalizeTree : Tree → List String → Tree × Bool
   | t, [] => (t, false)
   | t, u :: us =>
     let (t1, cv, _) := t.insert false u
     let (t2, cv2) := normalizeTree t1 us
     (t2, cv || cv2)
-
-/-- the loop of `ConvergeAggregation`: repeat `NormalizeTree` until a pass signals no convergence
-    (`fuel` = the Go loop has no bound; every pass that continues has merged at least one node) -/
-def Tree.normalizeFix : Nat → Tree → List String → Tree × Bool
-  | 0, t, _ => (t, false)
-  | fuel + 1, t, us =>
-    let (t1, cv) := t.normalizeTree us
-    if cv then ((normalizeFix fuel t1 us).1, true) else (t1, false)
-
-def fixFuel : Nat := 1000
 
 /-- `common.BuildTree`: `none` = error. -/
 def buildTree (thr : Nat) (known : List String) : Option Tree :=
@@ -233,12 +229,12 @@ def normAll (t : Tree) (urls : List String) : List String × Tree :=
 def tagsOf (rs : List Rec) : List String :=
   rs.foldl (fun acc r => if acc.contains (consumerOf r.consumer) then acc else acc ++ [consumerOf r.consumer]) []
 
-/-- One `discovery.Run`: (tree, aggregation, failed). -/
-def stepT (t : Tree) (A : Agg) (batch : List Rec) : Tree × Agg × Bool :=
-  if batch.isEmpty then (t, A, false) else
+/-- One `discovery.Run`: (tree, aggregation). -/
+def stepT (t : Tree) (A : Agg) (batch : List Rec) : Tree × Agg :=
+  if batch.isEmpty then (t, A) else
   let rs := external batch
   -- ConvergeAggregation
-  let (t1, cv) := t.normalizeFix fixFuel (rs.map (·.url))
+  let (t1, cv) := t.normalizeTree (rs.map (·.url))
   let (A1, t2) :=
     if cv then
       let (eu, ta) := normAll t1 (A.endpoints.map (·.1.2))
@@ -255,13 +251,12 @@ def stepT (t : Tree) (A : Agg) (batch : List Rec) : Tree × Agg × Bool :=
       let (gu, t') := normAll acc.2 (grp.map (·.url))
       (acc.1 ++ extractKeyed ((grp.zip gu).map fun p => ((tag, (p.1.method, p.2)), p.1)), t')) (([] : CMap), t3)
   let newAgg : Agg := { endpoints := ends, consumers := cons, interceptors := extractI rs }
-  (t4, A1.combine newAgg, false)
+  (t4, A1.combine newAgg)
 
 /-- The abstract `Normaliser` read off the concrete tree (pure: the mutated tree of `NormalizeURL` is dropped). -/
 def treeNormaliser : Normaliser Tree :=
-  { learn := fun t us => (t.normalizeFix fixFuel us).1
+  { learn := fun t us => (t.normalizeTree us).1
     norm := fun t u => (t.normalizeURL u).1
-    conv := fun t us => (t.normalizeFix fixFuel us).2
-    fails := fun _ _ => false }
+    conv := fun t us => (t.normalizeTree us).2 }
 
 end LunarVerif.C15
